@@ -183,6 +183,9 @@ fn privacy_programs() -> Vec<(String, bool, String)> {
         let src = format!("mod a {{ pub mod b {{ pub mod c {{ {member_vis}fn hidden(x) {{ x * 5.0 }} }} }} pub fn run(x) {{ b::c::hidden(x) }} }}\nfn dsp() {{ a::run(1.0) }}\n");
         out.push((src, must_reject, format!("relative path from grandparent ({desc} member)")));
     }
+    // a module-level `let` must not make the rest of the file count as "inside the module" (finding F12)
+    out.push(("mod m {\n  fn secret(){ 42.0 }\n  let y = 1.0\n}\nlet z = m::secret()\nfn dsp(){ z }\n".to_string(), true, "qualified path from a top-level let that follows a module-level let".into()));
+    out.push(("mod m {\n  fn secret(){ 42.0 }\n}\nlet z = m::secret()\nfn dsp(){ z }\n".to_string(), true, "qualified path from a top-level let (control)".into()));
     // control: the owner itself and a child module may use the private member
     out.push(("mod osc { fn secret(x) { x * 2.0 } pub fn open(x) { osc::secret(x) } mod detail { pub fn twice(x) { osc::secret(x) } } pub fn t(x) { osc::detail::twice(x) } }\nfn dsp() { osc::open(1.0) + osc::t(1.0) }\n".to_string(), false, "own hierarchy".into()));
     out
